@@ -952,6 +952,100 @@ func checkValueNotifier(r *Reporter, p *Prog) {
 			r.Fail("ident/unregister-own-entry", pkg+".Notifier.Listener", p.posStr(fd.Pos()), "each deregistration closure must hand its own entry to the deregistration operation")
 		}
 	}
+	// Wait reports success only after a receive from the notification channel: every return of a nil
+	// error in Wait is reached only through a receive from the handle's channel that Deregister does
+	// NOT close (the other channel field of the handle is the deregistration signal)
+	if fd := p.FuncDecl(pkg, "Listener", "Wait"); fd == nil {
+		r.Unresolved("notifier/wait-success-only-on-notify", pkg+".Listener.Wait", "method not found")
+	} else {
+		key := pkg + ".Listener.Wait"
+		deregSignal := map[types.Object]bool{}
+		if dfd := p.FuncDecl(pkg, "Listener", "Deregister"); dfd != nil {
+			df := newFuncCFG(p, info, dfd.Body, pkg+".Listener.Deregister")
+			for _, c := range df.Calls(func(c *ast.CallExpr) bool { return rawKey(c.Fun) == "close" && len(c.Args) == 1 }) {
+				if se, ok := ast.Unparen(c.Args[0]).(*ast.SelectorExpr); ok {
+					if sel := info.Selections[se]; sel != nil && sel.Kind() == types.FieldVal {
+						deregSignal[sel.Obj()] = true
+					}
+				}
+			}
+		}
+		f := newFuncCFG(p, info, fd.Body, key)
+		self := recvObj(info, fd)
+		isNotifyRecv := func(n ast.Node) bool {
+			u, ok := n.(*ast.UnaryExpr)
+			if !ok || u.Op != token.ARROW {
+				return false
+			}
+			se, ok := ast.Unparen(u.X).(*ast.SelectorExpr)
+			if !ok || objOfIdent(info, se.X) != self || self == nil {
+				return false
+			}
+			sel := info.Selections[se]
+			return sel != nil && sel.Kind() == types.FieldVal && !deregSignal[sel.Obj()]
+		}
+		notified := f.AfterComm(isNotifyRecv)
+		afterNodes := map[ast.Node]bool{}
+		for _, np := range notified {
+			if np.I > 0 {
+				afterNodes[np.B.Nodes[np.I-1]] = true
+			}
+		}
+		nSucc, bad := 0, ""
+		for _, rpt := range f.FindOwn(func(n ast.Node) bool { _, ok := n.(*ast.ReturnStmt); return ok }) {
+			rs, ok := f.nodeAt(rpt).(*ast.ReturnStmt)
+			if !ok || len(rs.Results) != 1 {
+				continue
+			}
+			success := isNil(info, rs.Results[0])
+			// a result variable (single-exit form): the paths on which it was given an error are not
+			// success paths; every other path to the return is
+			var resVar types.Object
+			if !success {
+				if id, isId := ast.Unparen(rs.Results[0]).(*ast.Ident); isId {
+					if v, isVar := info.Uses[id].(*types.Var); isVar && !v.IsField() && v.Pkg() != nil && v.Parent() != v.Pkg().Scope() {
+						resVar, success = v, true
+					}
+				}
+			}
+			if !success {
+				continue
+			}
+			nSucc++
+			setsError := func(n ast.Node) bool {
+				as, ok := n.(*ast.AssignStmt)
+				if !ok || resVar == nil || len(as.Lhs) != len(as.Rhs) {
+					return false
+				}
+				for i, l := range as.Lhs {
+					if objOfIdent(info, l) == resVar && !isNil(info, as.Rhs[i]) {
+						return true
+					}
+				}
+				return false
+			}
+			if w, found := f.PathFromEntryAvoiding(rpt, func(n ast.Node) bool { return afterNodes[n] || setsError(n) }, func(e Edge) bool {
+				for _, np := range notified {
+					if np.I == 0 && e.From.Succs[e.Succ] == np.B {
+						return true
+					}
+				}
+				return false
+			}); found {
+				bad = fmt.Sprintf("%s: Wait returns success on a path that did not receive from the notification channel (%s): a cancelled context or a deregistration is reported as a notification", f.PosOf(rpt), strings.Join(w, " -> "))
+			}
+		}
+		switch {
+		case len(deregSignal) == 0 || len(notified) == 0:
+			r.Fail("notifier/wait-success-only-on-notify", key, p.posStr(fd.Pos()), fmt.Sprintf("expected a receive from the notification channel in Wait and a deregistration signal closed by Deregister (found %d / %d) (vacuous)", len(notified), len(deregSignal)))
+		case nSucc == 0:
+			r.Fail("notifier/wait-success-only-on-notify", key, p.posStr(fd.Pos()), "Wait never returns success (vacuous)")
+		case bad != "":
+			r.Fail("notifier/wait-success-only-on-notify", key, p.posStr(fd.Pos()), bad)
+		default:
+			r.Pass("notifier/wait-success-only-on-notify", key, p.posStr(fd.Pos()), fmt.Sprintf("%d success return(s), each reached only through the receive from the notification channel", nSucc))
+		}
+	}
 	// Deregister is single-shot (atomic swap) and Wait defers it
 	if fd := p.FuncDecl(pkg, "Listener", "Deregister"); fd != nil {
 		// single-shot: the channel is closed and the entry deregistered only on the edge on which the
